@@ -72,9 +72,12 @@ type Contract struct {
 	Trusted   bool   // contract assumed, body not verified
 	DepthGuard string    // "COUNTER LIMIT": this function is a recursion-depth guard (see depth.go)
 	AtCalls    []*Clause // obligations at every call that may lead back to this function
+	CallSites  []*CallSite // obligations at every call of a named function inside this function (arg0, arg1, ... = the actuals)
 	StructuralRec bool   // recursion over a finite, already built data structure (declared with a reason)
 	VerifyBody string // with Trusted: facet levels at which the body is nevertheless verified against the clauses of that level (the trusted part is then only the frame and the lower-level clauses)
 	Opaque    bool   // never inline; without ensures the result is havocked
+	Reveal    map[string]bool // opaque specification functions whose definition this function's obligations may use
+	Snapshots []Snapshot      // ghost names for the value a local variable receives at one of its assignments
 	NoVerify  bool   // body not verified and not claimed (documentation only)
 	Modifies  []string
 	Pure      bool
@@ -118,6 +121,28 @@ type SharedConst struct {
 	Global, Func, Reason string
 }
 
+// Snapshot names the value stored by the K-th assignment (in source order, 1-based) to local variable Var: a ghost constant
+// usable in the clauses of the function ("snapshot num0 = num#1"). The assignment must not be inside a loop; on paths
+// that do not execute it the name is unconstrained.
+type Snapshot struct {
+	Name, Var string
+	K         int
+}
+
+// CallSite is an assertion this function makes about the arguments it passes to a callee ("callsite css.ToHash[F] @l: expr"):
+// a precondition the caller imposes on itself, checked at each of its calls of that function.
+type CallSite struct {
+	Callee string
+	C      *Clause
+}
+
+// SpecLemma is a lemma about an opaque specification function, instantiated at every application of the function.
+type SpecLemma struct {
+	Fun    string
+	Params []string
+	C      *Clause
+}
+
 type Pred struct {
 	Name   string
 	Params []string
@@ -135,6 +160,12 @@ type Specs struct {
 	PropFuncs map[string][]string
 	WalkDirectives []string
 	Ghosts    map[string]int // ghost (uninterpreted) spec functions: name -> arity
+	// SpecFuncs: opaque specification functions ("specfunc f(x) := body"). In a verification condition f is an
+	// uninterpreted function; its definition is instantiated at the applications that occur only in functions that say
+	// "reveal f". Elsewhere only the lemmas of f ("lemma f(x) @name: formula") are instantiated at each application, and
+	// every lemma used is itself an obligation of the using function, proved from the definition.
+	SpecFuncs      map[string]*Pred
+	SpecFuncLemmas map[string][]*SpecLemma
 	GhostByte map[string]bool // ghost functions declared "ghost f(..) byte": values are bytes (0..255)
 	Folds     map[string]*Fold
 	Orbits    map[string]*Orbit
@@ -149,6 +180,7 @@ func NewSpecs() *Specs {
 }
 
 var clauseKeywords = map[string]bool{
+	"specfunc": true, "lemma": true, "reveal": true, "snapshot": true, "callsite": true,
 	"pred": true, "func": true, "extern": true, "ghost": true, "ghostfield": true, "fold": true, "orbit": true, "iface": true, "walk": true, "requires": true, "ensures": true, "preserves": true, "loop": true,
 	"funcparam": true, "mapspec": true, "assumefacet": true, "readonly": true, "dyncall": true, "inline": true, "trusted": true, "verifybody": true, "depthguard": true, "atcalls": true, "recursion": true, "sharedconst": true, "opaque": true, "noverify": true, "modifies": true, "pure": true, "arith": true, "axiom": true,
 }
@@ -278,6 +310,69 @@ func (S *Specs) parseFile(path string) error {
 				return fail(err)
 			}
 			S.Preds[name] = &Pred{Name: name, Params: params, Body: e, Src: body}
+			cur = nil
+		case "specfunc":
+			// specfunc name(a, b) := expr   (integer arguments and result)
+			k := strings.Index(rest, ":=")
+			if k < 0 {
+				return fail(fmt.Errorf("specfunc without :="))
+			}
+			head, body := strings.TrimSpace(rest[:k]), rest[k+2:]
+			op := strings.Index(head, "(")
+			if op < 0 || !strings.HasSuffix(head, ")") {
+				return fail(fmt.Errorf("bad specfunc head"))
+			}
+			name := strings.TrimSpace(head[:op])
+			var params []string
+			for _, p := range strings.Split(head[op+1:len(head)-1], ",") {
+				if p = strings.TrimSpace(p); p != "" {
+					params = append(params, p)
+				}
+			}
+			e, err := ParseExpr(body)
+			if err != nil {
+				return fail(err)
+			}
+			if S.SpecFuncs == nil {
+				S.SpecFuncs = map[string]*Pred{}
+				S.SpecFuncLemmas = map[string][]*SpecLemma{}
+			}
+			if S.Ghosts == nil {
+				S.Ghosts = map[string]int{}
+			}
+			S.SpecFuncs[name] = &Pred{Name: name, Params: params, Body: e, Src: body}
+			S.Ghosts[name] = len(params)
+			cur = nil
+		case "lemma":
+			// lemma name(a, b) @label: formula   -- instantiated at every application name(t1, t2)
+			cl := strings.Index(rest, ")")
+			op := strings.Index(rest, "(")
+			if op < 0 || cl < op {
+				return fail(fmt.Errorf("lemma f(params) @label: formula"))
+			}
+			name := strings.TrimSpace(rest[:op])
+			if S.SpecFuncs[name] == nil {
+				return fail(fmt.Errorf("lemma about %q, which is not a specfunc declared earlier", name))
+			}
+			var params []string
+			for _, p := range strings.Split(rest[op+1:cl], ",") {
+				if p = strings.TrimSpace(p); p != "" {
+					params = append(params, p)
+				}
+			}
+			if len(params) != len(S.SpecFuncs[name].Params) {
+				return fail(fmt.Errorf("lemma %s: %d parameters expected", name, len(S.SpecFuncs[name].Params)))
+			}
+			_, tags, label, body := splitAnnot(rest[cl+1:])
+			if label == "" {
+				return fail(fmt.Errorf("lemma needs a @label"))
+			}
+			e, err := ParseExpr(body)
+			if err != nil {
+				return fail(err)
+			}
+			S.SpecFuncLemmas[name] = append(S.SpecFuncLemmas[name], &SpecLemma{Fun: name, Params: params,
+				C: &Clause{Kind: "lemma", Facet: "S", Tags: tags, Label: label, E: e, Src: strings.TrimSpace(body), File: path, Line: rc.line}})
 			cur = nil
 		case "axiom":
 			facet, tags, label, body := splitAnnot(rest)
@@ -499,10 +594,45 @@ func (S *Specs) parseFile(path string) error {
 					return fail(err)
 				}
 				cur.AtCalls = append(cur.AtCalls, &Clause{Kind: "atcalls", Facet: facet, Tags: tags, Label: label, E: e, Src: strings.TrimSpace(body), File: path, Line: rc.line, Ord: len(cur.AtCalls) + 1})
+			case "callsite":
+				// callsite pkg.Func[F,tags] @label: expr
+				r := strings.TrimSpace(rest)
+				k := strings.IndexAny(r, " \t[")
+				if k <= 0 {
+					return fail(fmt.Errorf("callsite CALLEE[facet] @label: expr"))
+				}
+				callee := r[:k]
+				facet, tags, label, body := splitAnnot(r[k:])
+				e, err := ParseExpr(body)
+				if err != nil {
+					return fail(err)
+				}
+				cur.CallSites = append(cur.CallSites, &CallSite{Callee: callee, C: &Clause{Kind: "callsite", Facet: facet, Tags: tags, Label: label, E: e, Src: strings.TrimSpace(body), File: path, Line: rc.line, Ord: len(cur.CallSites) + 1}})
 			case "opaque":
 				cur.Opaque = true
 			case "noverify":
 				cur.NoVerify = true
+			case "snapshot":
+				// snapshot NAME = VAR#K
+				var sn Snapshot
+				f := strings.Fields(strings.ReplaceAll(rest, "=", " = "))
+				if len(f) != 3 || f[1] != "=" || !strings.Contains(f[2], "#") {
+					return fail(fmt.Errorf("snapshot NAME = VAR#K"))
+				}
+				sn.Name = f[0]
+				k := strings.Index(f[2], "#")
+				sn.Var = f[2][:k]
+				if _, err := fmt.Sscanf(f[2][k+1:], "%d", &sn.K); err != nil || sn.K < 1 {
+					return fail(fmt.Errorf("snapshot NAME = VAR#K with K >= 1"))
+				}
+				cur.Snapshots = append(cur.Snapshots, sn)
+			case "reveal":
+				if cur.Reveal == nil {
+					cur.Reveal = map[string]bool{}
+				}
+				for _, n := range strings.Fields(rest) {
+					cur.Reveal[n] = true
+				}
 			case "pure":
 				cur.Pure = true
 			case "arith":
@@ -567,6 +697,11 @@ func (S *Specs) parseFile(path string) error {
 				case "candidate":
 					c.Ord = len(cur.LoopCand) + 1
 					cur.LoopCand = append(cur.LoopCand, c)
+				case "derived":
+					// a consequence of the invariants listed before it: proved once at the loop head (from those invariants,
+					// for the arbitrary iteration state) and then available like them; not re-proved around the loop
+					c.Ord = len(cur.LoopInv) + 1
+					cur.LoopInv = append(cur.LoopInv, c)
 				case "assume":
 					// assumed at the loop head without proof; always listed among the assumptions of the evidence
 					c.Ord = len(cur.LoopInv) + 1
